@@ -138,6 +138,10 @@ func (f *MakeArray) Call(s *slip.Scope, args slip.List, depth int) slip.Object {
 			}
 		}
 	}
+	if len(dims) == 1 && dims[0] < fillPtr {
+		slip.TypePanic(s, depth, ":fill-pointer", slip.Fixnum(fillPtr),
+			fmt.Sprintf("fixnum not more than the size of the vector, %d", dims[0]))
+	}
 	if len(dims) == 1 {
 		switch elementType {
 		case slip.OctetSymbol:
